@@ -321,6 +321,10 @@ func (p *Proxy) handleConnectRequest(ctx *Context, req *http.Request, session *S
 	if p.mitm != nil {
 		log.Debugf("martian: attempting MITM for connection: %s / %s", req.Host, req.URL.String())
 
+		// Requests read from the tunnel that do not name a host are addressed to
+		// the authority the tunnel was opened for.
+		session.setTunnelAuthority(req.URL.Host)
+
 		res := proxyutil.NewResponse(200, nil, req)
 
 		if err := p.resmod.ModifyResponse(res); err != nil {
@@ -527,6 +531,12 @@ func (p *Proxy) handle(ctx *Context, conn net.Conn, brw *bufio.ReadWriter) error
 	req.RemoteAddr = conn.RemoteAddr().String()
 	if req.URL.Host == "" {
 		req.URL.Host = req.Host
+	}
+	if req.URL.Host == "" {
+		// Neither the request target nor a Host header names a host (e.g. an
+		// HTTP/1.0 request inside a MITM'd tunnel): fall back to the authority
+		// of the CONNECT request that opened the tunnel, if any.
+		req.URL.Host = session.tunnelAuthority()
 	}
 
 	if req.Method == "CONNECT" {
